@@ -126,8 +126,13 @@ class Report:
             if o.status != FAILED:
                 continue
             if o.replay is not None and o.replay.get('fires') is False:
-                # a counterexample that does not reproduce on the real code is a checker bug
-                raise CheckerError(f'spurious counterexample for {o.id}: {o.replay}')
+                # the stock witness attached to this obligation does not reproduce on this tree: the failed obligation is still
+                # reported, without a failing input (a verifier-produced counterexample that does not replay is flagged by the
+                # contract itself with strict=True)
+                if o.replay.get('strict'):
+                    raise CheckerError(f'spurious counterexample for {o.id}: {o.replay}')
+                self.unreproduced = getattr(self, 'unreproduced', 0) + 1
+                o.replay = {'input': None, 'observed': f'stock witness does not reproduce here: {o.replay.get("observed")}'}
             f = listed.get(o.id)
             if f is not None and self._same_finding(f, o):
                 seen_known.add(o.id)
